@@ -1,4 +1,5 @@
 import LoraVerif.Props.C10
+import LoraVerif.Props.TieA.RegionDispatch
 import LoraVerif.Props.TieA.C10
 import LoraVerif.Props.C05Size
 /-!
